@@ -46,7 +46,12 @@ def cases(rng, tier, stats):
             elif k < 76 and length > 0:
                 op = "assign"; prog.append(("assign", who, [G.num(r.range(0, length - 1))], v))
             elif k < 82:
-                op = "concat"; prog.append(("decl", "গ", G.bin_("+", G.var("ক"), G.lst(v)))); prog.append(("print", G.call("_লিস্ট-লেন", G.var("গ"))))
+                op = "concat"
+                rhs = G.lst(v) if r.chance(0.6) else G.lst()
+                prog.append(("decl", "গ", G.bin_("+", G.var("ক"), rhs) if r.chance(0.7) else G.bin_("+", rhs, G.var("ক"))))
+                prog.append(("print", G.call("_লিস্ট-লেন", G.var("গ"))))
+                prog.append(("expr", G.call("_লিস্ট-পুশ", G.var("গ"), G.s("নকলে"))))
+                prog.append(("print", G.bin_("==", G.var("গ"), G.var("ক"))))
             elif k < 85:
                 op = "fractional"; prog.append(("expr", G.call("_লিস্ট-পুশ", G.var(who), G.num(str(length // 2) + ".7"), v))); length += 1
             else:
